@@ -734,12 +734,18 @@ func (c *diskCache) get(ctx context.Context, kind cache.EntryKind, hash string, 
 		return nil, -1, internalErr(err)
 	}
 
+	uncompressedOnDisk := (kind != cache.CAS) || (c.storageMode == casblob.Identity)
+	if uncompressedOnDisk && sizeOnDisk != foundSize {
+		// The backend's stream ended early (or ran long) without an error.
+		return nil, -1, internalErr(fmt.Errorf("expected %d bytes from the proxy backend, received %d",
+			foundSize, sizeOnDisk))
+	}
+
 	rcf, err := os.Open(blobFile)
 	if err != nil {
 		return nil, -1, internalErr(err)
 	}
 
-	uncompressedOnDisk := (kind != cache.CAS) || (c.storageMode == casblob.Identity)
 	if uncompressedOnDisk {
 		if offset > 0 {
 			_, err = rcf.Seek(offset, io.SeekStart)
